@@ -151,6 +151,7 @@ type Outcome struct {
 	Blake      bool   // address 9 was a call target (precompile only in the reference)
 	BigCode    bool   // a creation returned more code than EIP-170 allows
 	EcrecHighS bool   // ecrecover (address 1) was called with s above half the group order
+	RDataAlias bool   // KVM only: after a call the return-data buffer shared storage with the caller's memory
 	FailClass  map[string]int
 
 	TouchedAddrs map[addr]bool
